@@ -49,7 +49,40 @@ func c18(c *wk.Ctx) {
 	}
 }
 
+// c18split: (password, salt1, salt2) triples with identical concatenation but different boundaries, checked one
+// after the other in the same process (a memoised x keyed without boundaries would confuse them).
+func c18split(c *wk.Ctx, idx int, r *mrand.Rand, p *big.Int) {
+	base := []byte(randWord(r) + randWord(r) + randWord(r) + randWord(r))
+	cuts := [][2]int{{4, 8}, {5, 8}, {4, 9}, {0, 8}, {4, 4}, {len(base), len(base)}, {6, 6}}
+	for _, ct := range cuts {
+		pw, s1, s2 := string(base[:ct[0]]), base[ct[0]:ct[1]], base[ct[1]:]
+		if pw == "" {
+			pw, s1 = string(base[:1]), base[1:ct[1]]
+		}
+		srv := srpsrv.NewServer(p, 3, s1, s2, []byte(pw))
+		srv.SetB(new(big.Int).SetBytes(rbytes(r, 256)))
+		ap := &telegram.AccountPassword{HasPassword: true, SRPB: srpsrv.Pad(srv.B.Bytes()), SRPID: 7,
+			CurrentAlgo: &telegram.PasswordKdfAlgoSHA256SHA256PBKDF2HMACSHA512iter100000SHA256ModPow{Salt1: s1, Salt2: s2, G: 3, P: p.Bytes()}}
+		var res telegram.InputCheckPasswordSRP
+		var err error
+		pan, pm, st := wk.Guard(func() { res, err = telegram.GetInputCheckPassword(pw, ap) })
+		c.Count("evaluations", 1)
+		c.Distinct("split", len(pw), len(s1), len(s2), idx)
+		if pan || err != nil {
+			c.Viol("C18", idx, "split/failed", fmt.Sprint(pm, err, st), pw)
+			return
+		}
+		if o, ok := res.(*telegram.InputCheckPasswordSRPObj); !ok || srv.Check(o.A, o.M1) != nil {
+			c.Viol("C18", idx, "split/right-password-rejected", fmt.Sprintf("password %q salt1 %q salt2 %q (same bytes as an earlier triple of this process, split differently): the reference server rejects the answer", pw, s1, s2), pw)
+			return
+		}
+	}
+}
+
 func c18case(c *wk.Ctx, idx int, r *mrand.Rand, k int, p *big.Int) {
+	if k%8 == 5 {
+		c18split(c, idx, r, p)
+	}
 	pw := c18Passwords[k%len(c18Passwords)]
 	if k >= len(c18Passwords) && r.Intn(2) == 0 {
 		pw = randWord(r) + string(rune(0x400+r.Intn(200)))
